@@ -28,6 +28,11 @@ pub struct Case {
     pub weight: usize,
     #[serde(default)]
     pub note: String,
+    /// files visible to the compilation of `a` / of `b` (in-memory file system)
+    #[serde(default)]
+    pub a_files: Vec<(String, String)>,
+    #[serde(default)]
+    pub b_files: Vec<(String, String)>,
 }
 
 #[derive(Clone, Debug)]
@@ -82,6 +87,8 @@ fn mk(rel: &str, a: String, a_syntax: Syntax, b: String, b_syntax: Syntax, expec
         compressed,
         weight,
         note: note.into(),
+        a_files: vec![],
+        b_files: vec![],
     }
 }
 
@@ -91,7 +98,7 @@ impl Prop for C18 {
         "C18"
     }
     fn rule(&self) -> String {
-        "pairs (a, b) that must compile to byte-identical CSS (or both fail): rule trees and SassScript programs (control flow, mixins with content blocks, functions) printed as SCSS and as indented Sass by two independent printers each (programs: same @debug/@warn messages too); generated plain-CSS sheets parsed as CSS and as SCSS; the same plus one Sass-only construct, which CSS mode must reject (30 constructs, enumerated over generated sheets); and rewrites of SCSS sources (corpus, generated value-heavy sheets, rule trees): LF -> CRLF / CR / FF at syntactic newlines, leading BOM, leading @charset, whitespace and silent comments inserted after ; { } at statement level, single spaces inside declaration / variable values replaced by newlines, tabs, CRLF or a silent comment, `_` <-> `-` exchanged independently at each occurrence in $variables and user-defined function/mixin names. Non-trivial = the rewrite touched >= 5 positions, or the tree has nesting depth >= 3 / the CSS sheet has >= 3 statements; distinct by (relation, a, b).".into()
+        "pairs (a, b) that must compile to byte-identical CSS (or both fail): rule trees and SassScript programs (control flow, mixins with content blocks, functions) printed as SCSS and as indented Sass by two independent printers each (programs: same @debug/@warn messages too); statement trees with silent/loud comments, @if/@else, @each, mixins and @media through a third pair of printers, also as a loaded file of either syntax under an entry of either syntax whose syntax option is given explicitly; generated plain-CSS sheets parsed as CSS and as SCSS; the same plus one Sass-only construct, which CSS mode must reject (30 constructs, enumerated over generated sheets); and rewrites of SCSS sources (corpus, generated value-heavy sheets, rule trees): LF -> CRLF / CR / FF at syntactic newlines, leading BOM, leading @charset, whitespace and silent comments inserted after ; { } at statement level, single spaces inside declaration / variable values replaced by newlines, tabs, CRLF or a silent comment, `_` <-> `-` exchanged independently at each occurrence in $variables and user-defined function/mixin names. Non-trivial = the rewrite touched >= 5 positions, or the tree has nesting depth >= 3 / the CSS sheet has >= 3 statements; distinct by (relation, a, b).".into()
     }
     fn assumptions(&self) -> Vec<String> {
         vec![
@@ -122,6 +129,36 @@ impl Prop for C18 {
                 let depth = a.lines().map(|l| l.chars().take_while(|c| *c == ' ').count() / 2).max().unwrap_or(0);
                 mk("scss-vs-sass-program", a, Syntax::Scss, b, Syntax::Sass, "same", compressed, depth.max(3), "")
             });
+        // statement trees with comments, control flow and mixins through two printers; and the same
+        // tree as a loaded file of either syntax under an entry of either syntax whose syntax is
+        // given explicitly (the option applies to the entry only: loaded files go by extension)
+        let twins = (choices(120), any::<bool>(), any::<u8>()).prop_map(|(ch, compressed, k)| {
+            let mut c = Chooser::new(&ch);
+            let doc = crate::gen::dual::gen_doc(&mut c);
+            let scss = crate::gen::dual::print_scss(&doc);
+            let sass = crate::gen::dual::print_sass(&doc);
+            let w = scss.lines().count().min(9);
+            if k % 3 != 0 {
+                return mk("scss-vs-sass-twins", scss, Syntax::Scss, sass, Syntax::Sass, "same", compressed, w, "");
+            }
+            // a: scss entry loading part.scss (baseline); b: one of the other three combinations
+            let stmt = ["@import \"part\"", "@use \"part\"", "@use \"part\" as q"][(k as usize / 3) % 3];
+            let (b_entry_syntax, b_part_is_sass) = [(Syntax::Scss, true), (Syntax::Sass, false), (Syntax::Sass, true)][(k as usize / 9) % 3];
+            let mut case = mk(
+                "explicit-syntax-entry-loads-other-syntax",
+                format!("{};\n", stmt),
+                Syntax::Scss,
+                if b_entry_syntax == Syntax::Scss { format!("{};\n", stmt) } else { format!("{}\n", stmt) },
+                b_entry_syntax,
+                "same",
+                compressed,
+                w,
+                stmt,
+            );
+            case.a_files = vec![("part.scss".into(), scss.clone())];
+            case.b_files = vec![if b_part_is_sass { ("part.sass".into(), sass) } else { ("part.scss".into(), scss) }];
+            case
+        });
         let css_vs_scss = (choices(120), any::<bool>()).prop_map(|(ch, compressed)| {
             let mut c = Chooser::new(&ch);
             let css = gen_css(&mut c);
@@ -180,7 +217,7 @@ impl Prop for C18 {
                 }
             }
         });
-        let s = prop_oneof![3 => two_printers, 2 => two_printers_prog, 2 => css_vs_scss, 1 => sass_only, 6 => rewrites].boxed();
+        let s = prop_oneof![3 => two_printers, 2 => two_printers_prog, 3 => twins, 2 => css_vs_scss, 1 => sass_only, 6 => rewrites].boxed();
         Some((s, tier.pick(48_000, 600_000)))
     }
     fn enumerate(&self, _tier: Tier) -> Vec<Case> {
@@ -226,6 +263,12 @@ impl Prop for C18 {
         sa.syntax = Some(case.a_syntax);
         let mut sb = Single::scss(case.b.clone());
         sb.syntax = Some(case.b_syntax);
+        for (n, t) in &case.a_files {
+            sa.files.push((n.clone(), Bytes::Text(t.clone())));
+        }
+        for (n, t) in &case.b_files {
+            sb.files.push((n.clone(), Bytes::Text(t.clone())));
+        }
         if case.compressed {
             sa.style = Style::Compressed;
             sb.style = Style::Compressed;
